@@ -174,7 +174,7 @@ impl Gatekeeper {
                 let user_info = UserInfo::new(
                     self.subscription_slots,
                     block_count,
-                    block_count + self.subscription_duration,
+                    block_count.saturating_add(self.subscription_duration),
                 );
                 self.dbm
                     .lock()
@@ -257,7 +257,9 @@ impl Gatekeeper {
             .iter()
             // NOTE: Ideally there won't be a user with `block_height > subscription_expiry + expiry_delta`, but
             // this might happen if we skip a couple of block connections due to a force update.
-            .filter(|(_, info)| block_height >= info.subscription_expiry + self.expiry_delta)
+            .filter(|(_, info)| {
+                block_height >= info.subscription_expiry.saturating_add(self.expiry_delta)
+            })
             .map(|(user_id, _)| *user_id)
             .collect()
     }
@@ -329,7 +331,7 @@ impl chain::Listen for Gatekeeper {
                 .into_iter()
                 .filter(|user_id| {
                     registered_users.get(user_id).map_or(false, |info| {
-                        height >= info.subscription_expiry + self.expiry_delta
+                        height >= info.subscription_expiry.saturating_add(self.expiry_delta)
                     })
                 })
                 .collect::<Vec<_>>();
